@@ -238,10 +238,9 @@ func generate(f *rep.Flags, bounds map[string]any, emit func(*Case)) {
 		}
 	}
 
-	// F1b: the command line with the lone marker (UpdateArgs with no arguments) among the actions. What an
-	// empty command line means for the container is left open by the statements, so only the ownership
-	// verdicts (C01, C02) are evaluated on this family: the marker releases the earlier claim and its
-	// sender owns the command line from then on.
+	// F1b: the command line with the lone marker (UpdateArgs with no arguments) among the actions: it
+	// carries no command line and must change nothing - not the claims, not what later plugins are shown,
+	// not the result.
 	if want("argsmarker") {
 		k := items.K("args")
 		it := item0(k)
